@@ -134,7 +134,27 @@ def spec_may_raise(kind, label, widths):
     return kind == 'mul2' and label.startswith('signed') and (widths[0] == 1 or widths[1] == 1)
 
 
-def signature(kind, label, widths, vals, exp, got, outlen, raised):
+def clog2(n):
+    return (n - 1).bit_length() if n >= 1 else 0
+
+
+def formula_width(kind, label, widths, extra):
+    """the documented result width: longest + ceil(log2(number of terms))"""
+    if kind == 'fga':
+        return max(widths) + clog2(len(widths))
+    if kind == 'tri' and label.startswith('fast_group'):
+        return max(widths) + clog2(3)
+    if kind == 'tri' and label.startswith('fused'):
+        return max(widths[2], widths[0] + widths[1] - 1) + clog2(2)
+    if kind == 'gfma':
+        n = extra['npairs']
+        mult_max = max([widths[2 * i] + widths[2 * i + 1] - 1 for i in range(n)] or [0])
+        add_max = max(widths[2 * n:] or [0])
+        return max(mult_max, add_max) + clog2(len(widths) - n)
+    return None
+
+
+def signature(kind, label, widths, vals, exp, got, outlen, raised, extra=None):
     base = label.split('[')[0]
     if raised:
         if base == 'carrysave_adder':
@@ -152,10 +172,16 @@ def signature(kind, label, widths, vals, exp, got, outlen, raised):
         if vals[0] == 1 << (widths[0] - 1) or vals[1] == 1 << (widths[1] - 1):
             return 'signed_tree_multiplier:most-negative-operand'
         return 'signed_tree_multiplier:wrong-product'
+    fw = formula_width(kind, label, widths, extra or {})
+    truncated = outlen is not None and exp >= (1 << outlen) and got == exp % (1 << outlen)
     if base in ('fused_multiply_adder', 'generalized_fma'):
-        if exp >= (1 << outlen) and got == exp % (1 << outlen):
-            return 'fma:result-width-too-narrow'
+        if truncated and fw is not None and outlen < fw:
+            return 'fma:result-width-below-formula'      # narrower than longest + ceil(log2(#terms))
+        if truncated:
+            return 'fma:result-width-too-narrow'         # F11: the formula itself is one bit short
         return 'fma:wrong-result'
+    if base == 'fast_group_adder' and truncated:
+        return 'fast_group_adder:result-width-too-narrow'
     return base + ':wrong-result'
 
 
@@ -485,6 +511,41 @@ def make_jobs(ctx):
         ws += [r.choice([1, 2, 3, 5, 8, 10, 14]) for _ in range(nadd)]
         jobs.append({'kind': 'gfma', 'widths': ws, 'npairs': npairs, 'ra': r.choice(RA),
                      'cases': sample_vectors(r, ws, 12)})
+    # many equal-width operands at / near full scale: a result one bit too narrow (wrong
+    # log2 rounding of the operand count) must show up as a concrete failing input
+    def full_scale(r, ws):
+        top = [(1 << w) - 1 for w in ws]
+        cs = [tuple(top), tuple(max(0, v - 1) for v in top)]
+        for k in (0, len(ws) // 2, len(ws) - 1):
+            cs.append(tuple(v - 1 if j == k else v for j, v in enumerate(top)))
+            cs.append(tuple(0 if j == k else v for j, v in enumerate(top)))
+        cs += [tuple(r.choice([v, v, v - 1, r.getrandbits(w)]) for v, w in zip(top, ws)) for _ in range(4)]
+        cs += [tuple(r.getrandbits(w) for w in ws) for _ in range(3)]
+        return list(dict.fromkeys(cs))
+    k = 0
+    for n in (3, 4, 5, 6, 7, 8, 9, 10, 11, 16, 17):
+        for w in (2, 3, 4):
+            for red in (0, 1):
+                r = ctx.sub_rng('fga-full', n, w, red)
+                ws = [w] * n
+                jobs.append({'kind': 'fga', 'widths': ws, 'ra': (red, ADD_CODES[k % 3]), 'cases': full_scale(r, ws)})
+                k += 1
+        for w in (2, 3):
+            for npairs in (0, 1, 2):
+                if n - npairs < 0:
+                    continue
+                r = ctx.sub_rng('gfma-full', n, w, npairs)
+                ws = [w] * (2 * npairs) + [w if npairs == 0 else 2 * w] * (n - npairs)
+                jobs.append({'kind': 'gfma', 'widths': ws, 'npairs': npairs, 'ra': (k % 2, ADD_CODES[k % 3]),
+                             'cases': full_scale(r, ws)})
+                k += 1
+    # the _trivial_mult path (a one-bit operand, in particular equal to 1) beyond the exhaustive widths
+    for (wa, wb) in [(1, 8), (12, 1), (1, 16), (1, 33), (64, 1)]:
+        r = ctx.sub_rng('trivial', wa, wb)
+        big = wb if wa == 1 else wa
+        vs = [(1 << big) - 1, 1 << (big - 1), 1, 0, r.getrandbits(big), r.getrandbits(big)]
+        cs = [(one, v) if wa == 1 else (v, one) for v in vs for one in (1, 0)]
+        jobs.append({'kind': 'mul2', 'widths': [wa, wb], 'cases': cs})
     # direct reducer calls on random column profiles (tie only)
     nr = 40 if quick else 300
     for i in range(nr):
@@ -620,7 +681,7 @@ def compare_comb(ctx, col, job, res, model, variants):
                 continue
             exp = spec_value(kind, gi, label, vals, widths, extra)
             if got != exp:
-                sig = signature(kind, label, widths, vals, exp, got, ilen, False)
+                sig = signature(kind, label, widths, vals, exp, got, ilen, False, extra)
                 col.add_spec(sig, (size, vals), '%s: operands %s -> %d, exact result %d (result bitwidth %d)' % (
                     call, list(vals), got, exp, ilen),
                     {'api': call, 'widths': widths, 'operands': list(vals), 'expected': exp, 'got': got,
